@@ -16,6 +16,7 @@ import (
 	"verif/gen"
 	"verif/mc"
 	"verif/ref"
+	"verif/sched"
 )
 
 func init() {
@@ -205,7 +206,12 @@ type c04Run struct {
 	inputs   int64
 	scratch  []byte
 	lastKind string
+	maxWork  int64 // largest observed library calls per input byte, x100
 }
+
+// The "terminates promptly" oracle: every input byte can open at most one field, element or
+// entry, each of which costs a bounded number of library function calls (codec nesting depth).
+const workPerByte, workSlack = 64, 256
 
 func c04Work(c *mc.Ctx) {
 	targets := c04Targets(c.Tier)
@@ -257,6 +263,7 @@ func c04Work(c *mc.Ctx) {
 			c.Dim("gen:" + kind)
 			gen(func(in []byte) { r.one(kind, in) })
 			c.Outcome("block-done")
+			c.Max("max_library_calls_per_input_byte_x100", r.maxWork)
 		}
 		alpha := append(append([]byte(nil), c04Alphabet...), tg.tags...)
 		// (i) raw strings
@@ -459,6 +466,7 @@ func (r *c04Run) one(kind string, in []byte) {
 			var rn int
 			var rerr error
 			c.Ops(1)
+			w0 := sched.Work
 			if c.Guard(pre, func() { res[pi], rn, rerr = r.decode(path, buf) }) {
 				panicked = true
 				// the instance may be poisoned (e.g. a lock held): start afresh
@@ -467,6 +475,12 @@ func (r *c04Run) one(kind string, in []byte) {
 				break
 			}
 			if pi == 0 {
+				// work: library function entries during the call, linear in the input length
+				if w := sched.Work - w0; w > uint64(workPerByte*(n+1)+workSlack) {
+					c.Violation(pre+"work-not-linear-in-input", fmt.Sprintf("input %s (%d bytes): %d library function calls, bound %d", hx(in), n, w, workPerByte*(n+1)+workSlack))
+				} else if q := int64(w) * 100 / int64(n+1); q > r.maxWork {
+					r.maxWork = q
+				}
 				metrics.Read(r.samples)
 				if used := r.samples[0].Value.Uint64() - before; used > limit {
 					// the cheap counter is flushed in span-sized steps: confirm with an exact
